@@ -77,9 +77,9 @@ func runSol(o *Out, rng *rand.Rand, thorough bool) {
 	o.Meta.Rule = "a case = generated instance (features toggled independently) × solver options; every solution " +
 		"delivered on the channel is one observation judged by NR.Spec; non-trivial = an observation with at least " +
 		"one planned multi-stop / nested unit or an active limit; distinct by feature set"
-	ncases, iters := 60, 300
+	ncases, iters := 150, 400
 	if thorough {
-		ncases, iters = 600, 2500
+		ncases, iters = 2500, 2000
 	}
 	seenFeat := map[string]bool{}
 	for ci := 0; ci < ncases; ci++ {
@@ -89,8 +89,12 @@ func runSol(o *Out, rng *rand.Rand, thorough bool) {
 			p.Tight = true
 		}
 		c := genCase(rng, p)
+		c.Solve = &CSolve{Runs: []int{1, 1, 2, 4}[rng.Intn(4)], Starts: rng.Intn(3), Det: rng.Intn(2) == 0, Iters: iters}
 		if replayFile != "" {
 			c = loadReplayCase(replayFile)
+			if c.Solve == nil {
+				c.Solve = &CSolve{Runs: 1, Starts: 0, Det: true, Iters: iters}
+			}
 			ncases = 1
 		}
 		if !o.BeginCase(ci, c) {
@@ -111,10 +115,9 @@ func runSol(o *Out, rng *rand.Rand, thorough bool) {
 			o.Count("unit-derivation-differs")
 			o.Meta.Notes = append(o.Meta.Notes, "unit derivation differs: "+strings.Join(bt.b.unitMiss, " "))
 		}
-		runs := []int{1, 1, 2, 4}[rng.Intn(4)]
-		nstart := rng.Intn(3)
-		opt := nextroute.ParallelSolveOptions{Iterations: iters, Duration: 20 * time.Second, ParallelRuns: runs,
-			StartSolutions: nstart, RunDeterministically: rng.Intn(2) == 0}
+		runs, nstart := c.Solve.Runs, c.Solve.Starts
+		opt := nextroute.ParallelSolveOptions{Iterations: c.Solve.Iters, Duration: 20 * time.Second, ParallelRuns: runs,
+			StartSolutions: nstart, RunDeterministically: c.Solve.Det}
 		rec := &hookRec{}
 		nextroute.VerifHook = func(site string, args ...any) {
 			if site == "agg_score" {
